@@ -62,13 +62,26 @@ class _Interrupt(Exception):
     pass
 
 
-def parallel_build(cat, b, force):
-    """build_trees on two real worker processes"""
-    if cw.BINNINGS[b] is None:
-        cat.build_trees(None, force=force, max_workers=2)
-    else:
-        edges, closed = cw.BINNINGS[b]
-        cat.build_trees(edges, closed=closed, force=force, max_workers=2)
+def parallel_build(cat, b, force, aux=None):
+    """build_trees on two real worker processes - for every catalog the next measurement with
+    binning b will use, so that the measurement itself finds all trees up to date"""
+    yaw = data.import_yaw()
+
+    def bt(c, name):
+        if cw.BINNINGS[name] is None:
+            c.build_trees(None, force=force, max_workers=2)
+        else:
+            edges, closed = cw.BINNINGS[name]
+            c.build_trees(edges, closed=closed, force=force, max_workers=2)
+
+    bt(cat, b)
+    if aux is not None:
+        rnd = yaw.Catalog(aux / "rnd", max_workers=1)
+        if b == "N":
+            bt(yaw.Catalog(aux / "refaux", max_workers=1), "A")
+            bt(rnd, "A")
+        else:
+            bt(rnd, b)
 
 
 def interrupted_build(cat, b):
@@ -157,7 +170,12 @@ def run(ctx) -> None:
         cw.make(src, "new")
         ref = {}
         for b in names:
-            ref[b] = cw.measure(data.copy_cache(src, base / "tmp_ref"), b, aux)
+            try:
+                ref[b] = cw.measure(data.copy_cache(src, base / "tmp_ref"), b, aux)
+            except Exception as exc:  # noqa: BLE001 - a measurement on a FRESH copy of the cache must work
+                ctx.violation(f"C07|measure|fresh_cache_after_other_measurements_in_the_same_process|raises_{type(exc).__name__}",
+                              dict(binning=b, error=repr(exc)[:300], note="reference measurements run one after the other on fresh cache copies at the same path"))
+                ref[b] = None
         fresh_trees = {}
         for b in names:
             d = data.copy_cache(src, base / "tmp_ref")
@@ -184,14 +202,14 @@ def run(ctx) -> None:
                         interrupted_build(cat, b)
                         got = None
                     elif op == "pbuild":
-                        parallel_build(cat, b, force)
+                        parallel_build(cat, b, force, aux)
                         got = None
                     else:
                         got = cw.measure(work, b, aux)
                 except Exception as exc:  # noqa: BLE001
                     ctx.violation(f"C07|{op}|history_raises_{type(exc).__name__}", dict(history=h, step=si, error=repr(exc)[:300]))
                     break
-                if op == "use" and got != ref[b]:
+                if op == "use" and ref[b] is not None and got != ref[b]:
                     prev = [x for x in h[:si]]
                     kind = "same_edges_other_closed_side" if any({pb, b} == {"A", "A2"} for _, pb, _ in prev) else "other"
                     if any(o == "ibuild" for o, _, _ in prev):
